@@ -581,7 +581,7 @@ def check_star_getitem(case):
 
 @st.composite
 def _default_nested_case(draw, tier):
-    return {"field": draw(st.sampled_from(["t", "lst", "pt"])), "v": draw(st.sampled_from([0, 0, 0, 7])),
+    return {"field": draw(st.sampled_from(["t", "lst", "pt", "nt"])), "v": draw(st.sampled_from([0, 0, 0, 7])),
             "obs": draw(st.sampled_from([0, 5])), "n_new": draw(st.sampled_from([1, 2])), "F": draw(flag_sets()),
             "outer": draw(st.sampled_from(["call", "list", "dict"]))}
 
@@ -592,10 +592,13 @@ def check_default_nested(case):
     import warnings
 
     f, v, obs = case["field"], case["v"], case["obs"]
+    cls = "Holder"
+    if f == "nt":
+        cls, f = "NHolder", "t"      # a namedtuple with defaults
     old = {"t": "(Is(V), 0)", "lst": "[Is(V)]", "pt": "Point(x=Is(V), y=0)"}[f]
     new = {"t": f"({obs}, 0)", "lst": f"[{obs}]", "pt": f"Point(x={obs}, y=0)"}[f]
-    old_call = f"Holder({f}={old}, n=0+1)"
-    new_call = f"Holder({f}={new}, n={case['n_new']})"
+    old_call = f"{cls}({f}={old}, n=0+1)"
+    new_call = f"{cls}({f}={new}, n={case['n_new']})"
     wrap = {"call": "%s", "list": "[%s, 2]", "dict": "{'h': %s}"}[case["outer"]]
     src = ("from inline_snapshot import snapshot, Is\nfrom vf_prelude import *\n\n" + f"V = {v}\n\n\ndef test_a():\n"
            f"    assert {wrap % new_call} == snapshot({wrap % old_call})\n")
